@@ -19,6 +19,10 @@ def execute(c):
     ev = {"c": c, "outcome": "ok", "o": {"roi_src": [0, 0, 0, 0], "roi_dst": [0, 0, 0, 0], "paste_ok": False, "shrink": 1, "scale": 0}}
     try:
         _, _, rr = plan(c)
+        if "den" in c:
+            ev["o"] = {"roi_src": roi4(rr.roi_src), "roi_dst": roi4(rr.roi_dst), "paste_ok": bool(rr.paste_ok),
+                       "shrink": int(rr.read_shrink) if float(rr.read_shrink).is_integer() else -1, "scale": 0}
+            return ev
         ev["o"] = {"roi_src": roi4(rr.roi_src), "roi_dst": roi4(rr.roi_dst), "paste_ok": bool(rr.paste_ok),
                    "shrink": int(rr.read_shrink) if float(rr.read_shrink).is_integer() else -1,
                    # the SQUARE of the scale is on the lattice for every rational map (a sheared map's scale itself is a square root)
@@ -42,9 +46,11 @@ def run(ctx):
     cases.sort(key=lambda c: json.dumps(c, sort_keys=True))
     total = len(cases)
     ax = [c for c in cases if "ns" in c]
+    big = [c for c in cases if "den" in c]
+    cases = [c for c in cases if "den" not in c]
     rot = [c for c in cases if "A" in c and c["A"][1] != 0]
     st = [c for c in cases if "A" in c and c["A"][1] == 0]
-    cases = ctx.subsample(st, 12000 if q else 250000) + ctx.subsample(rot, 1500 if q else 4000) + ctx.subsample(ax, 6000 if q else 10 ** 6)
+    cases = ctx.subsample(st, 12000 if q else 250000) + ctx.subsample(rot, 1500 if q else 4000) + ctx.subsample(ax, 6000 if q else 10 ** 6) + big
     events = ctx.pmap(execute, cases)
     verdicts = _validate(ctx, events)
     for ev, v in zip(events, verdicts):
@@ -52,7 +58,7 @@ def run(ctx):
         if "ns" in c:
             ctx.record(c, v, op="axis_overlap", conformance=True, nontrivial=ev["o"][3] > ev["o"][2], sample={"case": c, "out": ev["o"]})
             continue
-        ctx.record(c, v, op="rotated" if c["A"][1] else "scale+translation", conformance=True,
+        ctx.record(c, v, op="large-rasters" if "den" in c else "rotated" if c["A"][1] else "scale+translation", conformance=True,
                    nontrivial=ev["o"]["roi_dst"][1] > ev["o"]["roi_dst"][0], sample={"case": c, "plan": ev["o"]})
     ctx.traces_validated = len(events)
     ctx.extra["same_crs_cases_total"] = total
